@@ -58,7 +58,7 @@ std::uint64_t g_total_sut = 0;
 
 void *do_new(std::size_t sz, std::size_t align)
 {
-  bool const sut = sim::fault::st().in_sut;
+  bool const sut = sim::fault::st().in_sut && !sim::fault::st().alloc_off;
   if (sut && sim::fault::hit(sim::fault::alloc))
     return nullptr;
   if (sz == 0)
